@@ -240,6 +240,10 @@ func (n *RaftNode) Restore(rc io.ReadCloser) error {
 		return err
 	}
 
+	// queries must not observe the store while it is being replaced under the trees
+	n.applyMu.Lock()
+	defer n.applyMu.Unlock()
+
 	if n.raft != nil { // we are not restoring on startup
 
 		// we make a remote call to fetch the snapshot
@@ -251,6 +255,10 @@ func (n *RaftNode) Restore(rc io.ReadCloser) error {
 		if err := n.db.LoadSnapshot(reader); err != nil {
 			return err
 		}
+
+		// the transferred batches went straight into the store: the in-memory
+		// levels of the hyper tree still describe the state before the transfer
+		n.balloon.RebuildCache()
 	}
 
 	n.loadState()
